@@ -504,7 +504,7 @@ class Env:
         return self.store.sub(loc[0], loc[1])
 
     def _order(self, f):
-        return f.byte_order or self.m.default_byte_order or "Null"
+        return f.byte_order or getattr(self.s, "default_byte_order", None) or self.m.default_byte_order or "Null"
 
     # -- sub-views
     def sub_env(self, name, index=None):
@@ -961,6 +961,8 @@ def could_write(env, name, v):
             return None
         target, form, c = tgt
         x = v if form == "alias" else (v - c if form == "plus" else v + c if form == "minus" else c - v)
+        if f.requires is not None and env.eval(f.requires, this=v) is not True:
+            return False  # the virtual field's own [requires] is about the value the caller passes
         return could_write(env, target, x)
     t = f.type
     if not representable(t, v, env.m):
@@ -983,6 +985,8 @@ def try_write(env, name, v):
         target, form, c = tgt
         x = v if form == "alias" else (v - c if form == "plus" else v + c if form == "minus" else c - v)
         if env.has(name) is not True:
+            return False
+        if could_write(env, name, v) is not True:
             return False
         return try_write(env, target, x)
     if not could_write(env, name, v):
